@@ -27,10 +27,11 @@ EXTENDS EonPK
 Ids(rows) == {rows[j].e : j \in DOMAIN rows}
 IdOfNum(n) == IF \E e \in EonIds : EonTab[e].num = n THEN CHOOSE e \in EonIds : EonTab[e].num = n ELSE 0
 
-\* the mechanism(s) the configured flavour publishes through.  A keyper with both broadcasting
-\* and a handler is required to broadcast; the handler calls are pinned by conformance only.
-Required(mode) == IF mode.bc THEN {"bc"} ELSE IF mode.cb THEN {"cb"} ELSE {}
-Allowed(mode) == (IF mode.bc THEN {"bc"} ELSE {}) \cup (IF mode.cb THEN {"cb"} ELSE {})
+\* the mechanisms the options given to the keyper core enabled (recomputed from the option
+\* sequence, not taken from what the harness wrote).  Every enabled mechanism is required: with
+\* the default broadcast AND a registered handler each key goes to both, once each.
+Allowed(mode) == (IF Eff(mode).bc THEN {"bc"} ELSE {}) \cup (IF Eff(mode).cb THEN {"cb"} ELSE {})
+Required(mode) == Allowed(mode)
 
 GhostInit == [owed |-> {}, done |-> {}]
 
